@@ -181,7 +181,7 @@ PROPS = {
             "os file access is a finite map in the model",
         ],
         "assumptions": ["files parse without syntax errors (parse-error load errors are not compared)"],
-        "explanation": "refutations of exact cycle verdicts (diamond, double include, depth limit) as theorems, root-level verdicts for all file systems; tie: all 512 digraphs on 3 files + random directories of 1..5 files with every include form; oracle: stack-based reference traversal (loaded set = reference set, each once, identical diagnostics)",
+        "explanation": "for all file systems / graphs / limits / coherent caches: the loader model IS the stack-based reference traversal (refinement), terminates, loads each file once, loads only reachable files, attaches every diagnostic to a directive naming its target, reports a cycle only for a file reachable from itself, refuses includes one by one (every include is loaded or diagnosed), and loads every reachable file when nothing is refused; tie: all 512 digraphs on 3 files + random directories of 1..5 files with every include form; oracle: reference traversal (loaded set = reference set, each once, identical diagnostics)",
     },
     "C11": {
         "n": {"quick": 2500, "thorough": 30000},
